@@ -550,6 +550,30 @@ pub fn miri_c16(seed: u64, n: u64) {
                 });
             }
         });
+        // ping-pong: each thread renders "its" frame over and over while the others render
+        // different ones — the access pattern under which a shared render cache goes wrong
+        if nf >= 2 {
+            let want: Vec<Out> = (0..nf).map(|fr| exec_out(&f, &Op::FrameImage(fr), &costs)).collect();
+            let wantr = &want;
+            std::thread::scope(|s| {
+                for k in 0..2u32 {
+                    s.spawn(move || {
+                        for _ in 0..3 {
+                            let fr_idx = k % nf;
+                            let o = exec_out(fr, &Op::FrameImage(fr_idx), costsr);
+                            assert!(
+                                o == wantr[fr_idx as usize],
+                                "C16 violation under Miri: thread {} frame {} image differs from the sequential result (VERIF_SEED={} case={})",
+                                k,
+                                fr_idx,
+                                seed,
+                                i
+                            );
+                        }
+                    });
+                }
+            });
+        }
         // second load, equal observations
         let g = AsepriteFile::read(&bytes[..]).expect("tiny sprite must load twice");
         for (idx, op) in ops.iter().enumerate() {
